@@ -143,6 +143,9 @@ func (r *armoredReader) Read(p []byte) (int, error) {
 	if len(line) > format.ColumnsPerLine {
 		return 0, r.setErr(errors.New("column limit exceeded"))
 	}
+	if len(line) == 0 {
+		return 0, r.setErr(errors.New("empty line"))
+	}
 	// CR and LF are ignored by Decode, but we don't want any malleability.
 	if bytes.ContainsAny(line, "\n\r") {
 		return 0, r.setErr(errors.New("unexpected newline character"))
